@@ -345,7 +345,8 @@ def install(E):
     for n in ("_ZNSt13basic_filebufIcSt11char_traitsIcEED2Ev", "_ZNSt13basic_filebufIcSt11char_traitsIcEED1Ev",
               "_ZNSt13basic_filebufIcSt11char_traitsIcEEC1Ev", "_ZNSt6localeD1Ev", "_ZNSt6localeC1Ev",
               "_ZNSt8ios_baseD2Ev", "_ZNSt8ios_baseC2Ev", "_ZNSt9exceptionD2Ev", "_ZNSt9exceptionD1Ev",
-              "_ZNSt8ios_base4InitC1Ev", "_ZNSt8ios_base4InitD1Ev", "_ZNKSt5ctypeIcE13_M_widen_initEv"):
+              "_ZNSt8ios_base4InitC1Ev", "_ZNSt8ios_base4InitD1Ev", "_ZNKSt5ctypeIcE13_M_widen_initEv",
+              "_ZNSaIcEC1Ev", "_ZNSaIcEC2Ev", "_ZNSaIcED1Ev", "_ZNSaIcED2Ev", "_ZNSaIcEC1ERKS_", "_ZNSaIcEC2ERKS_"):
         X[n] = nop
 
     def ios_clear(E, st, fr, ins, a):
